@@ -344,7 +344,13 @@ pub fn scope_check(text: &str) -> Result<(), String> {
 // C23
 
 pub fn c23_text(text: &str) -> Found {
+    c23_text2(text).0
+}
+
+/// (violations, did the parser accept the text)
+pub fn c23_text2(text: &str) -> (Found, bool) {
     let mut out: Found = vec![];
+    let mut parsed = false;
     let r = std::panic::catch_unwind(|| match air_parser::parse(text) {
         Ok(ast) => (true, count_error_nodes(&ast)),
         Err(_) => (false, 0),
@@ -352,6 +358,7 @@ pub fn c23_text(text: &str) -> Found {
     match r {
         Err(_) => out.push(("C23/parser-panics".into(), format!("{text:?}: {}", crate::host::take_last_panic().unwrap_or_default()))),
         Ok((true, n)) => {
+            parsed = true;
             if n > 0 {
                 out.push(("C23/accepted-tree-contains-error-nodes".into(), format!("{text:?}: {n} error nodes")));
             }
@@ -364,7 +371,7 @@ pub fn c23_text(text: &str) -> Found {
         }
         Ok((false, _)) => {}
     }
-    out
+    (out, parsed)
 }
 
 /// finer class of a scoping violation: is the offending name a fold iterator used outside its fold, and
@@ -621,7 +628,7 @@ pub fn check_c23(tier: Tier) -> Report {
     let mut accepted_tokens = 0u64;
     for len in 1..=maxlen {
         let all: Vec<String> = token_strings(len).filter(|t| tier == Tier::Thorough || len <= 3 || t.starts_with('(')).collect();
-        let res = par_map(&all, |t| (c23_text(t), air_parser::parse(t).is_ok()));
+        let res = par_map(&all, |t| c23_text2(t));
         for (t, (f, ok)) in all.iter().zip(res) {
             evals += 1;
             if ok {
@@ -649,8 +656,7 @@ pub fn check_c23(tier: Tier) -> Report {
         }
     }
     let res = par_map(&texts, |(_, t)| {
-        let f = c23_text(t);
-        let parsed = air_parser::parse(t).is_ok();
+        let (f, parsed) = c23_text2(t);
         let scoped = scope_check(t).is_ok();
         (f, parsed, scoped)
     });
